@@ -16,6 +16,6 @@ CONSTANTS
   KeyShards <- NoKeyShards
   FaultBudget = 1
 VIEW View
-INVARIANTS InvDirValid InvHandle InvNoLeak InvFaultReported InvErrOnlyIfFaulted
+INVARIANTS InvDirValid InvHandle InvNoLeak InvFaultReported InvErrOnlyIfFaulted InvFdBound InvNoResidue
 PROPERTIES StepImmutable StepReadOnlyFirst StepRemoval
 CHECK_DEADLOCK FALSE
